@@ -129,6 +129,9 @@ struct UnitReq {
     /// R24: emit the selected associated fn(s) as free functions (they use no impl generics)
     #[serde(default)]
     hoist: bool,
+    /// closure body hashes recorded when the contracts were written (None: no record, nothing is "new")
+    #[serde(default)]
+    known_closures: Option<Vec<String>>,
     /// emit the item verbatim (only doc comments dropped, visibility widened): used for Kani
     #[serde(default)]
     raw: bool,
@@ -161,6 +164,10 @@ struct UnitOut {
     n_closures: usize,
     n_tries: usize,
     closure_info: Vec<(String, usize, String, String)>,
+    /// new closures (body not in the recorded shape) that received the automatic contract `result == body`
+    auto_closures: usize,
+    /// new closures that could not be given one (statement bodies): their result is unconstrained
+    new_unannotated: usize,
     fmt_helpers: Vec<(String, String)>,
     error: Option<String>,
     identity_ok: Option<bool>,
@@ -267,7 +274,7 @@ fn vx_ord(attrs: &[Attribute]) -> Option<usize> {
 }
 
 fn strip_vx_ord(attrs: &mut Vec<Attribute>) {
-    attrs.retain(|a| !a.path().is_ident("vx_ord"));
+    attrs.retain(|a| !a.path().is_ident("vx_ord") && !a.path().is_ident("vx_new"));
 }
 
 /// Pass 1: number loops, closures and `?` in source pre-order.
@@ -276,6 +283,9 @@ struct Numberer {
     closures: usize,
     tries: usize,
     closure_hashes: Vec<(usize, String, String)>,
+    /// body hashes of the closures this unit had when its contracts were written (specs/shapes.json);
+    /// a closure with another body is marked #[vx_new]
+    known: Option<Vec<String>>,
 }
 impl VisitMut for Numberer {
     fn visit_expr_mut(&mut self, e: &mut Expr) {
@@ -299,7 +309,13 @@ impl VisitMut for Numberer {
                 let k = self.closures;
                 self.closures += 1;
                 let params: Vec<String> = c.inputs.iter().map(|p| pat_name(p)).collect();
-                self.closure_hashes.push((k, lit_hash(&norm(&c.body.to_token_stream())), params.join(",")));
+                let h = lit_hash(&norm(&c.body.to_token_stream()));
+                if let Some(kn) = &self.known {
+                    if !kn.contains(&h) {
+                        c.attrs.push(parse_quote!(#[vx_new]));
+                    }
+                }
+                self.closure_hashes.push((k, h, params.join(",")));
                 c.attrs.push(parse_quote!(#[vx_ord(#k)]));
             }
             Expr::Try(t) => {
@@ -1264,6 +1280,8 @@ struct Marker<'a> {
     used_closures: Vec<String>,
     errors: Vec<String>,
     closure_headers: BTreeMap<String, String>,
+    auto: Vec<(String, String)>,
+    new_unannotated: usize,
 }
 impl<'a> VisitMut for Marker<'a> {
     fn visit_item_mut(&mut self, _i: &mut Item) {}
@@ -1316,6 +1334,27 @@ impl<'a> VisitMut for Marker<'a> {
                                 }
                             }
                             Err(er) => self.errors.push(format!("closure #{} header unparsable: {}", k, er)),
+                        }
+                    } else if c.attrs.iter().any(|a| a.path().is_ident("vx_new")) {
+                        // R38: a closure that was not there when the contracts were written gets the automatic
+                        // contract "its result equals its body" when the body is a single expression; if that
+                        // expression is not expressible as a specification the verifier stops (undecided)
+                        let simple = match &*c.body {
+                            Expr::Block(b) => b.block.stmts.len() == 1 && matches!(b.block.stmts[0], Stmt::Expr(_, None)),
+                            _ => true,
+                        };
+                        if simple && matches!(c.output, syn::ReturnType::Default) {
+                            let bexpr: Expr = match &*c.body {
+                                Expr::Block(b) => match &b.block.stmts[0] { Stmt::Expr(e, None) => e.clone(), _ => unreachable!() },
+                                e => e.clone(),
+                            };
+                            c.output = syn::ReturnType::Type(Default::default(), Box::new(parse_quote!(VxRet<vx_o, _>)));
+                            let marker = format!("__vxclos_{}_n{}", self.uid, k);
+                            let id = syn::Ident::new(&marker, proc_macro2::Span::call_site());
+                            c.body = Box::new(parse_quote!({ #id!{}; #bexpr }));
+                            self.auto.push((marker, format!("ensures equal(vx_o, {}),\n", bexpr.to_token_stream())));
+                        } else {
+                            self.new_unannotated += 1;
                         }
                     }
                 }
@@ -1383,7 +1422,7 @@ fn process_fn(
     out: &mut UnitOut,
     subs: &mut Vec<(String, String, String)>, // (kind, marker, text)
 ) {
-    let mut num = Numberer { loops: 0, closures: 0, tries: 0, closure_hashes: vec![] };
+    let mut num = Numberer { loops: 0, closures: 0, tries: 0, closure_hashes: vec![], known: unit.known_closures.clone() };
     num.visit_block_mut(block);
     out.n_loops += num.loops;
     out.n_closures += num.closures;
@@ -1603,7 +1642,7 @@ fn process_fn(
             }
         }
     }
-    let mut mk = Marker { spec, uid: uid.to_string(), used_loops: vec![], used_closures: vec![], errors: vec![], closure_headers: BTreeMap::new() };
+    let mut mk = Marker { spec, uid: uid.to_string(), used_loops: vec![], used_closures: vec![], errors: vec![], closure_headers: BTreeMap::new(), auto: vec![], new_unannotated: 0 };
     mk.visit_block_mut(block);
     // A loop-free body needs no invariants: the loop specs are dropped (logged) and the body is
     // checked as it stands.  Any other mismatch in the loop count is a lost anchor.
@@ -1617,6 +1656,12 @@ fn process_fn(
             }
         }
     }
+    for (marker, text) in &mk.auto {
+        subs.push(("loop".into(), marker.clone(), text.clone()));
+        out.rewrites.push(RewriteLog { rule: "R38".into(), line: 0, detail: format!("{}: new closure given the automatic contract `result == body`", sig.ident) });
+    }
+    out.auto_closures += mk.auto.len();
+    out.new_unannotated += mk.new_unannotated;
     for k in spec.closures.keys() {
         if !mk.used_closures.contains(k) {
             mk.errors.push(format!("lost-anchor: closure #{} not found in {}", k, sig.ident));
